@@ -1,6 +1,7 @@
 package main
 
 import (
+	"bytes"
 	"bufio"
 	"encoding/json"
 	"fmt"
@@ -65,6 +66,8 @@ type workerProc struct {
 	stderr  *capBuf
 	tmproot string
 	waited  chan struct{}
+	// isolated confirmation runs: a call is a hang as soon as the worker process burned this much CPU since the call started
+	cpuLimit time.Duration
 }
 
 var workerSeq struct {
@@ -253,8 +256,25 @@ func supervise(wp *workerProc, req string, n int64, timeout time.Duration, onRes
 		}
 		timer.Reset(d)
 	}
+	var cpu0 time.Duration
+	var poll <-chan time.Time
+	if wp.cpuLimit > 0 {
+		tk := time.NewTicker(100 * time.Millisecond)
+		defer tk.Stop()
+		poll = tk.C
+	}
 	for done < n {
 		select {
+		case <-poll:
+			if running && wp.cmd.Process != nil {
+				if used := procCPU(wp.cmd.Process.Pid) - cpu0; used > wp.cpuLimit {
+					wp.kill(true)
+					st := wp.stderr.String()
+					_, frames, top := analyseDeath(st, true, "")
+					return done, curE, curK, &Outcome{Kind: "timeout", Msg: fmt.Sprintf("Extract did not return: the worker burned %s of CPU on this single input, run alone (limit %s)", used.Round(10*time.Millisecond), wp.cpuLimit),
+						Stack: frames, Top: top, Stderr: st}
+				}
+			}
 		case m, ok := <-wp.msgs:
 			if !ok {
 				<-wp.waited
@@ -277,6 +297,9 @@ func supervise(wp *workerProc, req string, n int64, timeout time.Duration, onRes
 					curK, _ = strconv.ParseInt(f[2], 10, 64)
 				}
 				running = true
+				if wp.cpuLimit > 0 && wp.cmd.Process != nil {
+					cpu0 = procCPU(wp.cmd.Process.Pid)
+				}
 				reset(timeout)
 			case strings.HasPrefix(m, "R "):
 				var r Result
@@ -302,6 +325,44 @@ func supervise(wp *workerProc, req string, n int64, timeout time.Duration, onRes
 		}
 	}
 	return done, -1, -1, nil
+}
+
+// procCPU is the user + system CPU time of a process (all threads) from /proc/<pid>/stat; 0 when unreadable.
+func procCPU(pid int) time.Duration {
+	b, err := os.ReadFile(fmt.Sprintf("/proc/%d/stat", pid))
+	if err != nil {
+		return 0
+	}
+	// fields after the ") " that ends the command name: state is field 3, utime 14, stime 15
+	i := bytes.LastIndexByte(b, ')')
+	if i < 0 {
+		return 0
+	}
+	f := strings.Fields(string(b[i+1:]))
+	if len(f) < 13 {
+		return 0
+	}
+	ut, _ := strconv.ParseInt(f[11], 10, 64)
+	stt, _ := strconv.ParseInt(f[12], 10, 64)
+	return time.Duration(ut+stt) * (time.Second / 100) // USER_HZ = 100 on Linux
+}
+
+// runIsolated decides whether a deadline hit is a hang: the single input is executed alone in a fresh worker; it is
+// a hang ("timeout") only if the worker burns more CPU than 1.2 x the per-call deadline on it (a spinning extractor
+// burns CPU, a starved one does not) or has not returned after 10 x the deadline of wall-clock time.
+func runIsolated(cfg *Config, x *ExplicitCase) *Outcome {
+	c2 := *cfg
+	c2.Timeout = 10 * cfg.Timeout
+	wp, err := spawnWorker(&c2)
+	if err != nil {
+		return &Outcome{Kind: "harness_error", Msg: err.Error()}
+	}
+	wp.cpuLimit = cfg.Timeout * 12 / 10
+	oc := runExplicit(&c2, &wp, x)
+	if wp != nil {
+		wp.quit()
+	}
+	return oc
 }
 
 // runExplicit runs one explicit case in the worker *wpp (spawned on demand; set to nil when it had to
